@@ -73,12 +73,23 @@ const (
 type target struct {
 	row     pktgen.Row
 	unknown bool // id is not registered in this table
+	graph   bool // extra target: every case is a generated command graph (AvailableCommands only)
 }
+
+// graphCopies is how many extra all-command-graph targets each AvailableCommands row gets.
+const graphCopies = 4
 
 func targets() []target {
 	var out []target
 	for _, r := range pktgen.Rows() {
 		out = append(out, target{row: r})
+	}
+	for _, r := range pktgen.Rows() {
+		if strings.HasSuffix(r.TypeName, ".AvailableCommands") {
+			for k := 0; k < graphCopies; k++ {
+				out = append(out, target{row: r, graph: true})
+			}
+		}
 	}
 	// unregistered ids: one pseudo row per (state, direction, protocol)
 	for _, s := range pktgen.States() {
@@ -148,6 +159,9 @@ func validBody(t target, r *rand.Rand, k int) []byte {
 // body builds the packet body (without the id) of case j of target t.
 func body(t target, seed int64, j int, thorough bool) (kind string, b []byte) {
 	r := caseRng(seed, t.row.Key(), j)
+	if t.graph {
+		return "command-graph", commandGraph(r, int(t.row.Protocol))
+	}
 	kind = kinds[j%len(kinds)]
 	if t.unknown {
 		kind = []string{"random-small", "random-medium", "random-large"}[j%3]
@@ -245,6 +259,72 @@ func body(t target, seed int64, j int, thorough bool) (kind string, b []byte) {
 		b = hostileStructure(r, thorough, j/len(kinds))
 	}
 	return kind, b
+}
+
+// commandGraph builds a small, mostly well-formed command graph in the wire format of the
+// Commands packet: 3-10 nodes, names from a three-letter alphabet (so siblings collide by name),
+// literal and bool-argument nodes mixed, children taken from lower indexes (a DAG with shared
+// sub-trees), some redirects, the root last. One in eight graphs also gets back edges. This is
+// the shape a hostile backend would use against the tree builder: valid enough to pass the
+// structural checks, odd enough to exercise node merging.
+func commandGraph(r *rand.Rand, protocol int) []byte {
+	var bb bytes.Buffer
+	n := 3 + r.Intn(8)
+	backEdges := r.Intn(8) == 0
+	pick := func(i int) int {
+		if backEdges || i == 0 {
+			return r.Intn(n)
+		}
+		return r.Intn(i)
+	}
+	bb.Write(varint(n))
+	for i := 0; i < n; i++ {
+		if i == n-1 { // root
+			c := 1 + r.Intn(4)
+			bb.WriteByte(0)
+			bb.Write(varint(c))
+			for k := 0; k < c; k++ {
+				bb.Write(varint(r.Intn(n - 1)))
+			}
+			break
+		}
+		arg := r.Intn(10) < 3
+		flags := byte(1)
+		if arg {
+			flags = 2
+		}
+		if r.Intn(3) == 0 {
+			flags |= 0x04 // executable
+		}
+		redirect := i > 0 && r.Intn(7) == 0
+		if redirect {
+			flags |= 0x08
+		}
+		bb.WriteByte(flags)
+		c := 0
+		if i > 0 || backEdges {
+			c = r.Intn(4)
+		}
+		bb.Write(varint(c))
+		for k := 0; k < c; k++ {
+			bb.Write(varint(pick(i)))
+		}
+		if redirect {
+			bb.Write(varint(pick(i)))
+		}
+		bb.Write([]byte{1, "xyz"[r.Intn(3)]})
+		if arg {
+			if protocol >= 759 { // 1.19+: parser by registry id; 0 = brigadier:bool on every version
+				bb.Write(varint(0))
+			} else {
+				id := "brigadier:bool"
+				bb.Write(varint(len(id)))
+				bb.WriteString(id)
+			}
+		}
+	}
+	bb.Write(varint(n - 1))
+	return bb.Bytes()
 }
 
 // hostileStructure builds inputs aimed at the structured decoders: command graphs with
